@@ -12,6 +12,8 @@ import warnings
 
 def main_(seed, nscen):
     warnings.simplefilter("ignore")
+    from allmydata.util import cputhreadpool
+    cputhreadpool._DISABLED = True      # zfec and RSA key generation run inline: no cross-thread wake-ups to lose, reproducible schedules
     import struct
     from twisted.internet import defer, reactor, task
     from allmydata import uri
